@@ -126,6 +126,7 @@ REVERTS = [
  ("R-includepath-panic", "C16", "7410e14", "relative .includepath in a macro body panics"),
  ("R-macro-line-length", "C16", "c243025", "m @0@0 recursion doubles its argument until memory is gone"),
  ("R-includepath-own-directory", "C11", "f446de7 e251467", ".includepath of the file's own directory not handed on"),
+ ("R-label-on-org-line", "C02", "d9c506b", "lab: .org 4 gives lab the place in front of the gap"),
  ("R-define-named-pc", "C10", "207b488", "#define pc accepted"),
  ("R-directive-second-operand", "C15", "b1eac26", ".if 1 nosuch assembles as .if 1"),
  ("R-macro-line-length-precheck", "C16", "eb3a7c1", "a macro line with thousands of parameters and a long argument is built before its length is checked"),
